@@ -15,6 +15,18 @@ theorem bind_ok {ε α β : Type} {x : Except ε α} {f : α → Except ε β} {
   | error e => cases h
   | ok a => exact ⟨a, rfl, h⟩
 
+/-- the C side stopped in undefined behaviour that the model tracks: a signed 32-bit overflow -/
+def UB {α : Type} (r : Except Err α) : Prop := r = .error .overflow
+
+theorem ub_bind {α β : Type} {x : Except Err α} (f : α → Except Err β) (h : UB x) : UB (x >>= f) := by
+  unfold UB at h ⊢; rw [h]; rfl
+
+theorem UB_ne_fuel {α : Type} {r : Except Err α} (h : UB r) : r ≠ .error .fuel := by
+  unfold UB at h; rw [h]; intro e; cases e
+
+theorem UB_not_ok {α : Type} {r : Except Err α} {a : α} (h : UB r) : r ≠ .ok a := by
+  unfold UB at h; rw [h]; intro e; cases e
+
 /-- the simulation relation between the Python store and the C store, for the names declared in `te` -/
 def Rel (te : C.TyEnv) (sp sc : Store) : Prop :=
   ∀ x t, te.lookup x = some t → ∀ pv, sp.get x = some pv →
@@ -96,12 +108,24 @@ theorem bool_val (te : C.TyEnv) (sp sc : Store) (hrel : Rel te sp sc) (e : Expr)
     · exact iha v hwt.1.1.2 (hwt.2 ▸ hty) hpy
     · exact ihb v hwt.1.2 hty hpy
 
-theorem chk_cases (r : Int) : C.chk r = .ok (.int r) ∨ C.chk r = .error .overflow := by
-  unfold C.chk; split <;> simp
+theorem chk_cases (r : Int) : C.chk r = .ok (.int r) ∨ UB (C.chk r) := by
+  unfold C.chk UB; split <;> simp
+
+theorem pyVal_toInt (op : BinOp) (x y : Val) : (op.pyVal x y).toInt = op.eval x.toInt y.toInt := by
+  cases op <;> cases x <;> cases y <;> try rfl
+  all_goals (rename_i a b; cases a <;> cases b <;> decide)
+
+/-- Python's value of a binary operation, converted to C `int`, is the operator on the operands' integer values -/
+theorem conv_pyVal (op : BinOp) (x y : Val) : C.conv .int (op.pyVal x y) = .int (op.eval x.toInt y.toInt) := by
+  show Val.int (op.pyVal x y).toInt = _
+  rw [pyVal_toInt]
+
+theorem binop_cases (op : BinOp) (a b : Int) : C.binop op a b = .ok (.int (op.eval a b)) ∨ UB (C.binop op a b) :=
+  chk_cases _
 
 theorem expr_sim (te : C.TyEnv) (sp sc : Store) (hrel : Rel te sp sc) (e : Expr) (v : Val)
     (hwt : e.wt te = true) (hpy : Py.eval sp e = .ok v) :
-    C.eval te sc e = .ok (C.conv (inferTy te e) v) ∨ C.eval te sc e = .error .overflow := by
+    C.eval te sc e = .ok (C.conv (inferTy te e) v) ∨ UB (C.eval te sc e) := by
   induction e generalizing v with
   | int n => simp only [Py.eval] at hpy; cases hpy; left; rfl
   | bool b => simp only [Py.eval] at hpy; cases hpy; left; rfl
@@ -128,9 +152,10 @@ theorem expr_sim (te : C.TyEnv) (sp sc : Store) (hrel : Rel te sp sc) (e : Expr)
       · rw [h', ok_bind,
           conv_toInt _ x (fun ht => bool_val te sp sc hrel a x hwt.1 ht hx),
           conv_toInt _ y (fun ht => bool_val te sp sc hrel b y hwt.2 ht hy)]
-        exact chk_cases _
-      · rw [h']; right; rfl
-    · rw [h]; right; rfl
+        simp only [inferTy, conv_pyVal]
+        exact binop_cases _ _ _
+      · right; exact ub_bind _ h'
+    · right; exact ub_bind _ h
   | neg a iha =>
     simp only [Expr.wt, Bool.and_eq_true, beq_iff_eq] at hwt
     rw [Py.eval] at hpy
@@ -141,7 +166,7 @@ theorem expr_sim (te : C.TyEnv) (sp sc : Store) (hrel : Rel te sp sc) (e : Expr)
     · rw [h, ok_bind, conv_toInt _ x (fun ht => bool_val te sp sc hrel a x hwt.1 ht hx)]
       simp only [inferTy, hwt.2, conv_int_int]
       exact chk_cases _
-    · rw [h]; right; rfl
+    · right; exact ub_bind _ h
   | cmp op a b iha ihb =>
     simp only [Expr.wt, Bool.and_eq_true] at hwt
     rw [Py.eval] at hpy
@@ -156,8 +181,8 @@ theorem expr_sim (te : C.TyEnv) (sp sc : Store) (hrel : Rel te sp sc) (e : Expr)
           conv_toInt _ x (fun ht => bool_val te sp sc hrel a x hwt.1 ht hx),
           conv_toInt _ y (fun ht => bool_val te sp sc hrel b y hwt.2 ht hy)]
         left; rfl
-      · rw [h']; right; rfl
-    · rw [h]; right; rfl
+      · right; exact ub_bind _ h'
+    · right; exact ub_bind _ h
   | and a b iha ihb =>
     simp only [Expr.wt, Bool.and_eq_true, beq_iff_eq] at hwt
     rw [Py.eval] at hpy
@@ -170,14 +195,14 @@ theorem expr_sim (te : C.TyEnv) (sp sc : Store) (hrel : Rel te sp sc) (e : Expr)
         rw [if_pos htr]
         rcases ihb v hwt.1.1.2 hpy with h' | h'
         · rw [h', ok_bind, conv_truthy]; left; rfl
-        · rw [h']; right; rfl
+        · right; exact ub_bind _ h'
       · rename_i htr
         rw [if_neg htr]
         cases hpy
         left
         simp only [Bool.not_eq_true] at htr
         simp only [inferTy, C.conv, htr, pure_eq_ok]
-    · rw [h]; right; rfl
+    · right; exact ub_bind _ h
   | or a b iha ihb =>
     simp only [Expr.wt, Bool.and_eq_true, beq_iff_eq] at hwt
     rw [Py.eval] at hpy
@@ -195,8 +220,8 @@ theorem expr_sim (te : C.TyEnv) (sp sc : Store) (hrel : Rel te sp sc) (e : Expr)
         rw [if_neg htr]
         rcases ihb v hwt.1.1.2 hpy with h' | h'
         · rw [h', ok_bind, conv_truthy]; left; rfl
-        · rw [h']; right; rfl
-    · rw [h]; right; rfl
+        · right; exact ub_bind _ h'
+    · right; exact ub_bind _ h
   | not a iha =>
     simp only [Expr.wt] at hwt
     rw [Py.eval] at hpy
@@ -205,7 +230,7 @@ theorem expr_sim (te : C.TyEnv) (sp sc : Store) (hrel : Rel te sp sc) (e : Expr)
     rw [C.eval]
     rcases iha x hwt hx with h | h
     · rw [h, ok_bind, conv_truthy]; left; rfl
-    · rw [h]; right; rfl
+    · right; exact ub_bind _ h
   | ite c a b ihc iha ihb =>
     have hty := typeOf_eq_inferTy te _ hwt
     simp only [Expr.wt, Bool.and_eq_true, beq_iff_eq] at hwt
@@ -221,12 +246,12 @@ theorem expr_sim (te : C.TyEnv) (sp sc : Store) (hrel : Rel te sp sc) (e : Expr)
         rw [if_pos htr]
         rcases iha v hwt.1.1.2 hpy with h' | h'
         · rw [h', ok_bind]; dsimp only; rw [conv_idem]; left; rfl
-        · rw [h']; right; rfl
+        · right; exact ub_bind _ h'
       · rename_i htr
         rw [if_neg htr]
         rcases ihb v hwt.1.2 hpy with h' | h'
         · rw [h', ok_bind]; dsimp only; rw [← hwt.2, conv_idem]; left; rfl
-        · rw [h']; right; rfl
-    · rw [h]; right; rfl
+        · right; exact ub_bind _ h'
+    · right; exact ub_bind _ h
 
 end Reduino.Lemmas.C01
